@@ -37,12 +37,20 @@ def run_impl(lines):
     out = [None] * len(lines)
     groups = {"ir": [], "grp": [], "prog": [], "rt": []}
     lint = []
+    layp = []
     for i, l in enumerate(lines):
         m = int(l.split()[0])
         if m == 103:
             lint.append(i)
             continue
+        if m in (20, 120):
+            layp.append(i)
+            continue
         groups["ir" if m == 1 else "grp" if m == 4 else "rt" if 10 <= m <= 19 else "prog"].append(i)
+    if layp:
+        res = layout_probe([lines[i] for i in layp])
+        for j, i in enumerate(layp):
+            out[i] = res[j]
     if lint:
         res = lint_probe([lines[i] for i in lint])
         for j, i in enumerate(lint):
@@ -379,3 +387,135 @@ def lint_cases(rng, tier):
             rows.append(method_row(recv, im, ret, rng.below(9), [(rng.choice(shapes), rng.below(9)) for _ in range(rng.range(0, 3))]))
         cases.append("103 %d | %s" % (ti, " ; ".join(" ".join(map(str, r)) for r in rows)))
     return cases, {"lint_traits": len(cases)}
+
+
+# ------------------------------------------------------------------------------------------ abi_stable as oracle (C20)
+def _split_rows(l):
+    hdr, rows = vlib.parse_case(l)
+    k = rows.index([-1])
+    return hdr, rows[:k], rows[k + 1:]
+
+
+def layout_probe(lines):
+    """compile both definitions of every pair with the layout_checks feature and ask the REAL compare_layouts (abi_stable) for its verdict;
+    also prints the REAL VerifyLayout::and table and the None cases.  Returns '<verdict> # fails=-' per line (0 Valid, 1 Invalid, 2 Unknown)."""
+    import re
+    env = dict(vlib.ENV)
+    env["CARGO_MANIFEST_DIR"] = os.path.join(vlib.VERIF, "harness", "gen")
+    d = os.path.join(vlib.CACHE, "layprobe")
+    os.makedirs(os.path.join(d, "src"), exist_ok=True)
+    mods, calls = [], []
+    trait_lines = []
+    for k, l in enumerate(lines):
+        hdr, a, b = _split_rows(l)
+        if hdr[0] == 20:
+            trait_lines.append("1 %d | %s" % (hdr[1], " ; ".join(" ".join(map(str, r)) for r in a)))
+            trait_lines.append("1 %d | %s" % (hdr[2], " ; ".join(" ".join(map(str, r)) for r in b)))
+    rendered = []
+    if trait_lines:
+        rc, src, e, _ = vlib.sh([_built["gen"], "render"], inp="\n".join(trait_lines) + "\n", env=env, timeout=120)
+        if rc != 0:
+            return ["!CRASH render failed"] * len(lines)
+        rendered = re.split(r"// @@TRAIT \d+\n", src)[1:]
+    ti = 0
+    for k, l in enumerate(lines):
+        hdr, a, b = _split_rows(l)
+        if hdr[0] == 20:
+            for side in ("a", "b"):
+                body = re.sub(r"pub trait T\d+ ", "pub trait Tr ", rendered[ti])
+                ti += 1
+                mods.append("pub mod %s%d { use super::*;\n%s}\n" % (side, k, body))
+            calls.append("    p(compare_layouts(Some(<a%d::TrBox<'static> as StableAbi>::LAYOUT), Some(<b%d::TrBox<'static> as StableAbi>::LAYOUT)));" % (k, k))
+        else:
+            for side, rows in (("a", a), ("b", b)):
+                nm = rows[0][0]
+                names = ["".join(chr(c) for c in r) for r in rows[1:]]
+                mods.append("pub mod %s%d { use super::*;\ncglue_trait_group!(G, { %s }, { %s });\n}\n" % (side, k, ", ".join(names[:nm]), ", ".join(names[nm:])))
+            calls.append("    p(compare_layouts(Some(<a%d::GBox<'static> as StableAbi>::LAYOUT), Some(<b%d::GBox<'static> as StableAbi>::LAYOUT)));" % (k, k))
+    pool = ["Pa", "Pb", "Pc", "Pd", "Pe"]
+    head = ("#![allow(unused, dead_code, unused_imports, clippy::all)]\nuse cglue::prelude::v1::*;\nuse cglue::*;\nuse cglue::trait_group::{compare_layouts, VerifyLayout};\n"
+            "use abi_stable::StableAbi;\n#[repr(C)]\n#[derive(Clone, Copy, StableAbi)]\npub struct Pod { pub a: u8, pub b: u32, pub c: i64 }\n"
+            + "".join("#[cglue_trait]\npub trait %s { fn f%d(&self) -> u32; }\n" % (n, i) for i, n in enumerate(pool)) +
+            "fn c(x: &VerifyLayout) -> i64 { match x { VerifyLayout::Valid => 0, VerifyLayout::Invalid => 1, VerifyLayout::Unknown => 2 } }\n"
+            "fn p(x: VerifyLayout) { println!(\"{}\", c(&x)); }\n")
+    main = "fn main() {\n" + "\n".join(calls) + "\n}\n"
+    open(os.path.join(d, "src", "main.rs"), "w").write(head + "".join(mods) + main)
+    open(os.path.join(d, "Cargo.toml"), "w").write('[package]\nname = "layprobe"\nversion = "0.0.0"\nedition = "2018"\n\n[workspace]\n\n[dependencies]\ncglue = { path = "/repo/cglue", features = ["layout_checks"] }\nabi_stable = "0.10"\n\n[profile.dev]\nopt-level = 0\ndebug = false\n')
+    try:
+        import shutil
+        shutil.copy(os.path.join(vlib.REPO, "Cargo.lock"), os.path.join(d, "Cargo.lock"))
+    except OSError:
+        pass
+    rc, o, e, dt = vlib.sh("timeout 1500 cargo run --offline", cwd=d, timeout=1530)
+    if rc != 0:
+        errs = [x for x in e.split("\n") if x.startswith("error")][:3]
+        return ["!CRASH layout probe does not build/run: " + " / ".join(errs)[:300]] * len(lines)
+    vals = [x.strip() for x in o.split("\n") if x.strip() != ""]
+    if len(vals) != len(lines):
+        return ["!CRASH layout probe printed %d verdicts for %d pairs" % (len(vals), len(lines))] * len(lines)
+    return ["%s # fails=-" % v for v in vals]
+
+
+def layout_cases(rng, tier):
+    """(definition, single-edit variant) pairs over the trait grammar; expected verdict: Valid iff the C-visible interface is unchanged"""
+    import copy
+    cases = []
+    n = 10 if tier == "quick" else 120
+    def rand_trait():
+        ti = rng.below(2)
+        rows = []
+        for k in range(rng.range(1, 4)):
+            while True:
+                recv, im, ret = rng.below(3), rng.below(3), rng.choice([0, 1, 2, 4, 6, 7, 9])
+                if wf(ti, im, ret) and not (recv == 2 and ret in REF_RETS):
+                    break
+            shapes = [0, 4, 6, 9] if ret in REF_RETS else [0, 1, 2, 3, 4, 6, 7, 8, 9, 11]
+            rows.append(method_row(recv, im, ret, rng.below(9), [(rng.choice(shapes), rng.below(9)) for _ in range(rng.range(0, 2))]))
+        return ti, rows
+    def line(t1, r1, t2, r2):
+        return "20 %d %d | %s ; -1 ; %s" % (t1, t2, " ; ".join(" ".join(map(str, r)) for r in r1), " ; ".join(" ".join(map(str, r)) for r in r2))
+    for _ in range(n):
+        ti, rows = rand_trait()
+        cases.append(line(ti, rows, ti, rows))                                  # identical
+        e = rng.below(8)
+        r2 = copy.deepcopy(rows)
+        t2 = ti
+        k = rng.below(len(rows))
+        if e == 0:
+            r2.append(method_row(0, 0, 1, 2, []))                               # add a method
+        elif e == 1 and len(r2) > 1:
+            del r2[k]                                                           # remove
+        elif e == 2:
+            r2[k][1] = (r2[k][1] & 15) + 16 * rng.range(1, 9)                   # rename
+        elif e == 3 and len(r2) > 1:
+            r2[0][1] = (r2[0][1] & 15) + 16 * 1; r2[1][1] = (r2[1][1] & 15) + 16 * 2
+            rows = copy.deepcopy(r2); r2[0], r2[1] = r2[1], r2[0]               # reorder two named methods
+            cases[-1] = line(ti, rows, ti, rows)
+        elif e == 4 and r2[k][4] > 0:
+            r2[k][6] = (r2[k][6] + 1) % 9                                       # change an argument's element type
+        elif e == 5:
+            if r2[k][2] in (1, 2, 4, 6): r2[k][3] = (r2[k][3] + 1) % 9          # change the return element type
+            else: r2[k][2] = 1
+        elif e == 6 and r2[k][2] not in REF_RETS:
+            r2[k][0] = (r2[k][0] + 1) % 3                                       # change the receiver
+            if r2[k][0] == 2 and r2[k][2] in REF_RETS: r2[k][0] = 0
+        else:
+            t2 = 1 - ti                                                         # toggle trait-level int_result
+            if not all(wf(t2, m[1], m[2]) for m in r2): t2 = ti; r2.append(method_row(1, 0, 0, 0, []))
+        cases.append(line(ti, rows, t2, r2))
+    # groups (monitor only): identical / optional trait added / removed / moved to mandatory
+    def gl(a, b):
+        enc = lambda g: " ; ".join([str(g[0])] + [enc_name(n) for n in g[1]])
+        return "120 | %s ; -1 ; %s" % (enc(a), enc(b))
+    base = (1, ["Pa", "Pb", "Pc"])
+    cases += [gl(base, base), gl(base, (1, ["Pa", "Pb", "Pc", "Pd"])), gl(base, (1, ["Pa", "Pb"])), gl(base, (2, ["Pa", "Pb", "Pc"])), gl(base, (1, ["Pa", "Pc", "Pb"])),
+              gl(base, (1, ["Pa", "Pb", "Pd"]))]
+    return cases, {"layout_pairs": len(cases)}
+
+
+def layout_expected(l):
+    """the property's own expectation for a pair (independent of the Coq model): 0 iff nothing C-visible changed"""
+    hdr, a, b = _split_rows(l)
+    if hdr[0] == 120:
+        return 0 if (a[0] == b[0] and sorted(map(tuple, a[1:a[0][0] + 1])) == sorted(map(tuple, b[1:b[0][0] + 1])) and sorted(map(tuple, a[a[0][0] + 1:])) == sorted(map(tuple, b[b[0][0] + 1:]))) else 1
+    return None
